@@ -1088,6 +1088,9 @@ class Values:
                     its = self.as_async_iter(self.element_of(self._arg(unit, e, at, 1)))
                     return frozenset(("elems", x) for x in its) or V(("elems", ("const", "mapped")))
             return V(("elems", ("const", "mapped")))
+        if name == "filter" and len(e.args) == 2:
+            # ``filter(pred, xs)``: an iterable over a selection of the elements of xs
+            return frozenset(("elems", x) for x in self.element_of(self._arg(unit, e, at, 1))) or V(("elems", ("const", "filtered")))
         if name == "getattr":
             arg = self._arg(unit, e, at, 0)
             attr = e.args[1] if len(e.args) > 1 else None
@@ -1140,6 +1143,10 @@ class Values:
             return V(("fresh", qual.split(".")[-1]))
         if qual == "typing.cast":
             return self._arg(unit, e, at, 1)
+        if qual == "builtins.filter" and len(e.args) == 2:
+            return self._arg(unit, e, at, 1)  # (a selection of the elements of its second argument)
+        if qual == "functools.update_wrapper":
+            return self._arg(unit, e, at, 0)  # (hands its first argument back)
         if qual.endswith("iscoroutinefunction"):
             return V(("const", "bool"))
         return V(("stdlibval", qual))
